@@ -887,6 +887,28 @@ pub fn c05x_case(inp: &ExecInput, lazy: bool) -> Option<Case> {
     Some(Case { verdict, detail: format!("c15_detail0 ({}) ({})", tree_term(&info), r), key: fnv(&format!("{}|{}|{}", inp.dsl, inp.src, lazy)),
         nontrivial: matches!(obs, Obs::Err(_, _)) || tree.root_node().has_error(), tags, replay })
 }
+/// the same program laid out differently: line breaks between statements become blanks, indentation becomes tabs,
+/// ASCII string literals get non-ASCII characters (1-3 bytes each, so that character and byte columns differ)
+pub fn relayout(rng: &mut Rng, dsl: &str) -> String {
+    let mut out = String::new();
+    let lines: Vec<&str> = dsl.lines().collect();
+    for (i, l) in lines.iter().enumerate() {
+        let mut line = l.to_string();
+        if rng.chance(40) { line = line.replace("\"s0\"", "\"ééé\"").replace("\"s1\"", "\"日本\"").replace("\"lit\"", "\"é日é\"").replace("\"x\"", "\"ñ\""); }
+        let stmt_line = l.starts_with("  ") && !l.trim_start().starts_with('}');
+        let next_stmt = lines.get(i + 1).map(|n| n.starts_with("  ") && !n.trim_start().starts_with('}') && !n.trim_start().starts_with('"')).unwrap_or(false);
+        if stmt_line && rng.chance(15) { line = line.replacen("  ", "\t", 1); }
+        // a statement that starts right after non-ASCII text of its own line: its character column, read as a
+        // byte offset, falls inside a multi-byte character
+        else if stmt_line && !l.trim_start().starts_with('"') && rng.chance(25) {
+            let ind = l.len() - l.trim_start().len();
+            line = format!("{}print {} {}", &l[..ind], rng.pick(&["\"ééé\"", "\"日本\"", "\"ñ\"", "\"ééééé\""]), line.trim_start());
+        }
+        out.push_str(&line);
+        if stmt_line && next_stmt && !l.trim_end().ends_with('{') && rng.chance(45) { out.push(' '); } else { out.push('\n'); }
+    }
+    out
+}
 pub fn c05x_gen(rng: &mut Rng, n: usize) -> Vec<Case> {
     quiet_panics();
     let mut out = Vec::new();
@@ -902,7 +924,11 @@ pub fn c05x_gen(rng: &mut Rng, n: usize) -> Vec<Case> {
         let base = gen_source(rng);
         let k = rng.below(4);
         let src = if rng.chance(50) { inject_faults(rng, &base, k) } else { base };
-        let inp = ExecInput { dsl: p.text(), src, supplied: p.supplied.clone() };
+        let mut dsl = p.text();
+        // other layouts of the same program: several statements on one line (statement columns beyond non-ASCII
+        // text of the same line), tabs for indentation, non-ASCII string literals
+        if rng.chance(40) { dsl = relayout(rng, &dsl); }
+        let inp = ExecInput { dsl, src, supplied: p.supplied.clone() };
         if known_class(&inp.dsl).is_some() { continue; }
         if let Some(c) = c05x_case(&inp, rng.chance(50)) { out.push(c); }
     }
